@@ -425,7 +425,7 @@ static FitCase genFitCommon(bool sillsOnly)
   c.ndim = G::pick({2, 2, 3});
   c.nvar = G::pick({1, 1, 2, 2, 2, 3});
   double L = G::pick({1., 100., 1e4});
-  double gscale = G::lu(1e-2, 1e3);
+  double gscale = G::pct(12) ? G::lu(1e-14, 1e-9) : G::lu(1e-2, 1e3); // 12 %: variables in small units (mass fractions, m2)
   c.dirs = genDirs(c.ndim, L);
   double hmax = c.hmax();
   c.source = G::pct(70) ? 0 : 1;
